@@ -1,5 +1,6 @@
 import DeepModel.Driver.Proto
 import DeepModel.Model.Collector
+import DeepModel.Model.CollectorTime
 open Lean Proto Heap Collector
 
 def probeOf {α : Type} (j : Json) (k : String) (f : Json → Except String α) : Except String (Probe α) := do
@@ -37,7 +38,7 @@ def parseAction (j : Json) : Except String ActionIn := do
   let l ← j.getObjVal? "limits"
   let lim : Limits := ⟨← getNat l "vars", ← getNat l "str", ← getNat l "coll", ← getNat l "depth"⟩
   let frames ← (← getArr j "frames").toList.mapM (fun f => do
-    pure (FrameIn.mk (← getNat f "locals") (← getBool f "collect")))
+    pure (FrameIn.mk (← getNat f "locals") ((f.getObjVal? "collect").toOption.bind (fun b => b.getBool?.toOption) |>.getD false)))
   let watches ← (← getArr j "watches").toList.mapM (fun w => do
     let src ← match (← getStr w "src") with
       | "watch" => pure Source.watch
@@ -46,6 +47,13 @@ def parseAction (j : Json) : Except String ActionIn := do
       | s => throw s!"unknown source {s}"
     pure (WatchIn.mk src (← getStr w "expr") (← getNat w "value")))
   pure ⟨lim, frames, watches⟩
+
+/-- an action run against the scripted clock: frames carry `selected` (= `should_collect_vars(index)`), the action its
+    `max_ms`; which frames are collected is decided by the model (`CollectorTime.timedActions`) -/
+def parseTimedAction (j : Json) : Except String CollectorTime.TimedAction := do
+  let a ← parseAction j
+  let sels ← (← getArr j "frames").toList.mapM (fun f => getBool f "selected")
+  pure ⟨a.limits, List.zipWith (fun f s => ⟨f.locals, s⟩) a.frames sels, a.watches, ← getInt j "max_ms"⟩
 
 def refJson (r : VarId) : Json :=
   Json.arr #[toJson r.vid, Json.str r.name, strs r.mods, optStr r.orig]
@@ -75,9 +83,19 @@ def handle (j : Json) : Except String Json := do
   match op with
   | "collect" =>
     let H : Heap := ⟨← (← getArr j "heap").toList.mapM parseObj⟩
-    let acts ← (← getArr j "actions").toList.mapM parseAction
-    let outs := processActions H ⟨[], []⟩ acts
-    pure (Json.mkObj [("actions", Json.arr (outs.map outcomeJson).toArray)])
+    match j.getObjVal? "clock" with
+    | .error _ =>
+      let acts ← (← getArr j "actions").toList.mapM parseAction
+      let outs := processActions H ⟨[], []⟩ acts
+      pure (Json.mkObj [("actions", Json.arr (outs.map outcomeJson).toArray)])
+    | .ok ck =>
+      let reads ← (← getArr ck "reads").toList.mapM (fun x => x.getInt?)
+      let script : Nat → Int := fun k => reads.getD k (reads.getLast?.getD 0)
+      let tacts ← (← getArr j "actions").toList.mapM parseTimedAction
+      let r := CollectorTime.timedActions (← getInt ck "ts") script 0 tacts
+      let outs := processActions H ⟨[], []⟩ r.1
+      pure (Json.mkObj [("actions", Json.arr (outs.map outcomeJson).toArray), ("reads", toJson r.2),
+                        ("collected", Json.arr (r.1.map (fun a => Json.arr (a.frames.map (fun f => Json.bool f.collect)).toArray)).toArray)])
   | "consts" =>
     pure (Json.mkObj [("no_child", strs Extracted.Collector.noChildTypes),
                       ("list_like", strs Extracted.Collector.listLikeTypes),
